@@ -87,6 +87,9 @@ Record tobs := mkTObs {
 }.
 
 Record case := mkCase {
+  c_model : bool;                    (* false for inputs of thousands of tokens: the model parser is not
+                                        re-run (too slow under vm_compute); K then evaluates the CONCLUSIONS
+                                        of the theorems on the real raw stream instead (strict check) *)
   c_len : N;                         (* source length in bytes *)
   c_raw : option (list event);       (* Parser::new(src) iterated; None = it panicked *)
   c_cst : option (list event);       (* CSTStream::from(Parser::new(src)); None = it panicked *)
@@ -133,17 +136,29 @@ Definition positions_match (os : list tobs) : bool :=
 Definition model_fuel (n : nat) : nat := 4096 + 96 * n.
 
 (* K *)
-Definition check_case (c : case) : bool :=
-  match c_raw c with
-  | None => false
-  | Some raw =>
+Definition check_model (c : case) (raw : list event) : bool :=
     let toks := toks_of_events raw in
     let n := length toks in
     let r := yara_parse toks (c_len c) (S n) (model_fuel n) parser_fuel in
     let fin := r_final r in
     events_eqb (full_events yara_cfg (c_len c) r) raw &&
     negb (stuck fin) && negb (panic (co fin)) && negb (hazard fin) &&
-    match r_exit r with Finished => true | _ => false end &&
+    match r_exit r with Finished => true | _ => false end.
+
+(* what lossless_balanced / node_spans_exact / full_stream_sound conclude, on the real stream *)
+Definition check_conclusions (c : case) (raw : list event) : bool :=
+    let toks := toks_of_events raw in
+    match chk yara_cfg toks true raw [] 0 with
+    | Some ([], n) => Nat.eqb n (length toks)
+    | _ => false
+    end &&
+    match raw with EBegin k lo hi :: _ => (k =? K.SOURCE_FILE) && (lo =? 0) && (hi =? c_len c) | _ => false end.
+
+Definition check_case (c : case) : bool :=
+  match c_raw c with
+  | None => false
+  | Some raw =>
+    (if c_model c then check_model c raw else check_conclusions c raw) &&
     match c_cst c with
     | Some cst => events_eqb (merge_errors raw [] []) cst
     | None => false
